@@ -52,15 +52,27 @@ def unit(v):
     return v / n
 
 
+def cross3(a, b):
+    """Cross product of two 3-vectors, written out (``np.cross`` spends
+    most of its time on axis bookkeeping)."""
+    return np.array([a[1] * b[2] - a[2] * b[1],
+                     a[2] * b[0] - a[0] * b[2],
+                     a[0] * b[1] - a[1] * b[0]], dtype=float)
+
+
+_E3 = np.eye(3)
+
+
 def rodrigues(axis, angle):
     """Counter-clockwise rotation by ``angle`` about ``axis`` (normalised
     here)."""
     n = unit(axis)
     c, s = np.cos(angle), np.sin(angle)
-    cols = []
-    for v in np.eye(3):
-        cols.append(v * c + np.cross(n, v) * s + n * np.dot(n, v) * (1.0 - c))
-    return np.column_stack(cols)
+    out = np.empty((3, 3))
+    for j in range(3):
+        v = _E3[j]
+        out[:, j] = v * c + cross3(n, v) * s + n * n[j] * (1.0 - c)
+    return out
 
 
 def rotation_from_to(u, v):
